@@ -56,7 +56,7 @@ def error_sink(ctx):
     opt = [n for n in body_walk(init.node) if isinstance(n, ast.If) and src(n.test).endswith('.optional') and any(isinstance(x, ast.Continue) for x in n.body)]
     for c in pops:
         loop = next((a for a in ancestors(c) if isinstance(a, ast.For)), None)
-        if loop is None or 'accessibles' not in src(loop.iter):
+        if loop is None or 'accessibles' not in src(resolved(loop.iter, init.node)):
             continue
         # the pop lies only where a test established that the accessible is not optional (`if aobj.optional: continue` before
         # it, or an enclosing `if not aobj.optional:`)
@@ -115,6 +115,13 @@ def server_tests_node_errors(ctx):
     tests = [n for n in body_walk(f.node) if isinstance(n, ast.If) and src(n.test) == 'errors' and any(any(a is n for a in ancestors(c)) for c in exit_calls(m, f, cfg))]
     if not tests:
         raise AnchorMissing('`if errors: ... sys.exit` not found in _processCfg')
+    # no way to come back from _processCfg without having asked (test mode included: `frappy-server --test` exists to find
+    # configuration errors; the playground builds nodes that way)
+    tids = [i for n in tests for i in cfg.ids(n.test)]
+    ctx.check(cfg.all_paths_pass([cfg.entry], [cfg.exit], tids, exc=False), f'{f.qualname}:every way back passes the errors test', tests[0],
+              'all normal paths through _processCfg test the collected errors',
+              '_processCfg can return normally on a path that never tests the collected errors: with failing modules the node (in test mode: the '
+              'checker) comes back as if the configuration was fine - nothing is reported, exit status 0', f)
     for n in tests:
         o = rd.origins_at(n.test, n.test)
         ok = any('secnode.errors' in src(x) for x in o) and all('secnode.errors' in src(x) for x in o)
